@@ -20,6 +20,9 @@ def dirHE : Bytes := [72, 45, 62, 69]        -- "H->E"
 def dirEH : Bytes := [72, 60, 45, 69]        -- "H<-E"
 def dirBoth : Bytes := [72, 60, 45, 62, 69]  -- "H<->E"
 
+/-- DataMessage.Type(): "data message" -/
+def Msg.typeName : Bytes := [100, 97, 116, 97, 32, 109, 101, 115, 115, 97, 103, 101]
+
 /-- DataMessage.checkRep -/
 def Msg.valid (m : Msg) : Bool :=
   !(Utf8.runes m.name).any Utf8.isSpace
